@@ -28,14 +28,19 @@ import (
 	"pgregory.net/rapid"
 )
 
-var vfC18Labels = []string{"example", "notexample", "xample", "com", "co", "www", "a", "Sub", "deep", "ads", "_dmarc", "x-y"}
+// (two labels hold a literal dot - "a\.example" is one label - so that "whole labels" is put to the test)
+var vfC18Labels = []string{"example", "notexample", "xample", "com", "co", "www", "a", "Sub", "deep", "ads", "_dmarc", "x-y", "a\\.example", "www\\.com"}
 
 // vfC18Name draws an LDH/underscore name of 1..4 labels, mixed case, with or without the trailing dot.
 func vfC18Name(t *rapid.T, label string) string {
 	n := rapid.IntRange(1, 4).Draw(t, label+"n")
 	parts := make([]string, n)
+	pool := vfC18Labels[:len(vfC18Labels)-2] // list entries are host names; the API's own key validation is not the subject here
+	if strings.HasPrefix(label, "q") {
+		pool = vfC18Labels // questions arrive from the wire with whatever octets their labels hold
+	}
 	for i := range parts {
-		parts[i] = rapid.SampledFrom(vfC18Labels).Draw(t, label+"l")
+		parts[i] = rapid.SampledFrom(pool).Draw(t, label+"l")
 	}
 	s := strings.Join(parts, ".")
 	if rapid.Bool().Draw(t, label+"dot") {
@@ -51,11 +56,11 @@ func vfC18Name(t *rapid.T, label string) string {
 }
 
 func vfC18LabelsOf(name string) []string {
-	name = strings.ToLower(strings.TrimSuffix(name, "."))
-	if name == "" {
+	name = strings.ToLower(name)
+	if name == "" || name == "." {
 		return nil
 	}
-	return strings.Split(name, ".")
+	return dns.SplitDomainName(name) // label boundaries are unescaped dots
 }
 
 func vfC18Canon(name string) string { return strings.Join(vfC18LabelsOf(name), ".") + "." }
@@ -283,13 +288,14 @@ func TestVerifC18Match(t *testing.T) {
 		var probes []string
 		for _, l := range model.lines() {
 			n := strings.TrimPrefix(l, "*.")
-			probes = append(probes, n, "www."+n, "not"+n, strings.ToUpper("a.b."+n))
+			// ("x\.example.com." is a child of "com.", not of "example.com.": its first label holds a literal dot)
+			probes = append(probes, n, "www."+n, "not"+n, strings.ToUpper("a.b."+n), "x\\."+n)
 			if labels := vfC18LabelsOf(n); len(labels) > 1 {
 				probes = append(probes, strings.Join(labels[1:], ".")+".")
 			}
 		}
 		for w := range model.white {
-			probes = append(probes, w, "www."+w, "not"+w)
+			probes = append(probes, w, "www."+w, "not"+w, "x\\."+w)
 		}
 		probes = append(probes, ".", vfC18Name(rt, "q1"), vfC18Name(rt, "q2"))
 		for _, q := range probes {
